@@ -6,6 +6,7 @@ import fcntl
 import hashlib
 import json
 import os
+import re
 import shutil
 import subprocess
 import sys
@@ -99,8 +100,17 @@ def extract(repo=REPO, config="dev", extra_crate_dirs=()):
                 "CARGO_NET_OFFLINE": "true",
             })
             env.pop("RUSTC_WORKSPACE_WRAPPER", None)
-            r = subprocess.run(["cargo", "+nightly", "check", "--offline", "--workspace", "--lib"],
-                               cwd=repo, env=env, stdout=subprocess.PIPE, stderr=subprocess.STDOUT, text=True)
+            for attempt in range(3):
+                r = subprocess.run(["cargo", "+nightly", "check", "--offline", "--workspace", "--lib"],
+                                   cwd=repo, env=env, stdout=subprocess.PIPE, stderr=subprocess.STDOUT, text=True)
+                if r.returncode == 0 or re.search(r"^error(\[E\d+\])?: ", r.stdout, flags=re.M) and "failed to run `rustc`" not in r.stdout and "could not execute process" not in r.stdout:
+                    break  # success, or a genuine compile error of the tree (not worth retrying)
+                # spurious toolchain failure under load (rustc could not be spawned, target info probe failed, ...): start over with a clean target dir
+                time.sleep(2 + 3 * attempt)
+                shutil.rmtree(target, ignore_errors=True)
+                os.makedirs(target, exist_ok=True)
+                for fn_ in os.listdir(tmp_out):
+                    os.remove(os.path.join(tmp_out, fn_))
             if r.returncode != 0:
                 sys.stderr.write(r.stdout[-6000:])
                 raise SystemExit("ENGINE-ERROR: /repo does not build under the fact extractor")
